@@ -27,7 +27,7 @@ def run(chk):
                 "vertices (<= 5 quick / <= 7 thorough) with random placement among the kept ones and random rotations of every dual triple, sampled above; results as sorted rotation-normalised triples must be "
                 "equal across permutations, equal to Model/Clip, closed surfaces, volumes equal within 1e-9 of the box; op cycle: random op sequences on SimpleCycle vs the array model; "
                 "non-trivial = scenario with >= 2 removed vertices; distinct by (scenario, permutation)")
-    chk.lean(['MVoro.Props.C18', 'MVoro.Proofs.CycleBoundary'], [], [])
+    chk.lean(['MVoro.Props.C18', 'MVoro.Proofs.CycleBoundary'], ['MVoro.Obl.ClipVertex'], ['ClipVertex'])
     got = run_cells_op(chk, op='clipperm')
     if got is None:
         return
